@@ -23,6 +23,9 @@ import GluonModel.Proofs.LayoutAlgo
 import GluonModel.Proofs.LayoutTotal
 import GluonModel.Proofs.LayoutBalance
 import GluonModel.Proofs.SpanArith
+import GluonModel.Tokenizer
+import GluonModel.Proofs.TokenizerUtf8
+import GluonModel.Proofs.TokenizerScan
 
 namespace GluonModel.Props.C09
 open GluonModel.LayoutAlgo GluonModel.SpanArith
@@ -240,5 +243,86 @@ example : ∃ st', scanLoop .let_ 50 1 true Proofs.hangEof
 example : fromLalrpop ⟨1, 10⟩ (.unrecognizedEof 0) = ⟨10, 10⟩ := rfl
 example : RawErr.Plausible 1 10 (.unrecognizedToken 3 5) := by simp [RawErr.Plausible]
 example : (shrinkTree (.node ⟨1, 9⟩ [.leaf ⟨1, 2⟩, .leaf ⟨4, 6⟩])).span = ⟨1, 6⟩ := rfl
+
+/-! ## The tokenizer (`GluonModel.Tokenizer`, a byte-level transcription of parser/src/token.rs +
+str_suffix.rs in which every slice / `restore_char` / `unwrap` is a checked operation)
+
+Full statement wanted (NOT proved yet; checked only by the exact correspondence with the real
+tokenizer, which never showed `panic`/`hang`/`fuel`):
+
+    theorem tokenize_total (cs : List Nat) (h : ∀ c ∈ cs, isScalar c) :
+        ∃ l, (tokenize (encodeAll cs).toArray).fin = .eof l
+
+(for every text the calls of `next` reach `EOF` within `len + 1` calls, never `panic`/`hang`),
+plus `token_spans_in_bounds` / `token_spans_ordered` for the items of that stream.  Proved below
+(the `_partial` of it): the UTF-8 layer the whole argument rests on, and totality of the three
+scanners that call `restore_char` on a consumed byte — where every tokenizer panic found so far
+(D13, D22) happened.  Missing: the same `Lands` statement for string / raw string / numeric /
+identifier / operator / comment / shebang scanners (their scans are covered by
+`scan_*_keeps_boundary`, their slices by `slice_between_boundaries_ok`; the composition, the
+`f64`/hex side conditions of `numeric_literal` and the `"`…`#` arithmetic of raw strings are not
+done) and the dispatcher `next` / the loop `run`. -/
+section Tokenizer
+open GluonModel.Tokenizer
+
+/-- `&input[s..e]` (token.rs:425 and the four direct slices) cannot panic between two scalar
+boundaries of the text. -/
+theorem slice_between_boundaries_ok (inp : Input) (s e : Nat) (hs : VAt inp s) (he : VAt inp e)
+    (hle : s ≤ e) : slice inp s e = .ok (s, e) :=
+  slice_ok hs he hle
+
+/-- str_suffix.rs:78: called with the first byte of the scalar at a boundary, `restore_char`
+returns (no `expect` fires) that very scalar, and `len_utf8` bytes on is the next boundary. -/
+theorem restore_char_total (inp : Input) (p : Nat) (h : VAt inp p) (hlt : p < inp.size) :
+    ∃ c, isScalar c ∧ restoreChar inp inp[p] (p + 1) = .ok c ∧ VAt inp (p + lenUtf8 c) :=
+  restoreChar_at h hlt
+
+/-- …and called with a continuation byte it panics whatever follows (the mechanism of D13/D22:
+any scanner that stops inside a scalar makes the next `restore_char` panic). -/
+theorem restore_char_panics_on_continuation_byte (inp : Input) (b p : Nat) (h : 128 ≤ b)
+    (h' : b < 192) : restoreChar inp b p = .panic "UTF-8 string" :=
+  restoreChar_cont_panics inp b p h h'
+
+/-- `take_while` over ASCII classes ends on a scalar boundary (digits, hex digits, identifier
+bytes, operator bytes: all `< 128`). -/
+theorem scan_ascii_class_keeps_boundary (inp : Input) (keep : Nat → Bool)
+    (hk : ∀ b, keep b = true → b < 128) (l : Loc) (hv : VAt inp l.abs) :
+    Lands inp l (scanUntil inp (fun b => !keep b) l) :=
+  scanUntil_keepAscii (fun b hb => hk b (by simpa using hb)) l hv
+
+/-- `take_until` with an ASCII terminator (`"`, `\`, newline, `*`) steps over whole scalars and
+ends on a scalar boundary. -/
+theorem scan_to_ascii_terminator_keeps_boundary (inp : Input) (term : Nat → Bool)
+    (ht : ∀ b, 128 ≤ b → term b = false) (l : Loc) (hv : VAt inp l.abs) :
+    Lands inp l (scanUntil inp term l) :=
+  scanUntil_stopAscii ht _ l rfl hv
+
+/-- token.rs:525 `escape_code`: for every text and every boundary it returns (never panics) and
+leaves the tokenizer on a scalar boundary not before where it started. -/
+theorem escape_code_total (inp : Input) (start l : Loc) (hv : VAt inp l.abs) :
+    ∃ b l' es, escapeCode inp start l = .ok (b, l', es) ∧ Lands inp l l' :=
+  escapeCode_total start hv
+
+/-- token.rs:638 `char_literal`: same (all four `restore_char`/`bump` paths; D22 was the
+`Some((end, next))` arm). -/
+theorem char_literal_total (inp : Input) (start l : Loc) (hv : VAt inp l.abs) :
+    ∃ o, charLiteral inp start l = .ok o ∧ Lands inp l o.loc :=
+  charLiteral_total start hv
+
+/-- `'aé` (D22): position 1 (after the quote) is a scalar boundary, so `char_literal_total`
+applies; the text is the encoding of the scalars `' a é`. -/
+example : VAt #[39, 97, 195, 169] 1 :=
+  ⟨by decide, [97, 233], by simp [isScalar], by simp [encodeAll, encode]⟩
+example : VAt #[39, 97, 195, 169] 2 :=
+  ⟨by decide, [233], by simp [isScalar], by simp [encodeAll, encode]⟩
+/-- position 3 is inside `é`: not a boundary, and `restore_char` on its byte panics. -/
+example : restoreChar #[39, 97, 195, 169] 169 4 = .panic "UTF-8 string" :=
+  restore_char_panics_on_continuation_byte _ _ _ (by decide) (by decide)
+example : isBoundary #[39, 97, 195, 169] 3 = false := by decide
+example : (fun b => !isDigit b) 200 = true := by decide
+example : ∀ b, 128 ≤ b → (fun b => b == 34 || b == 92) b = false := by
+  intro b h; simp; omega
+
+end Tokenizer
 
 end GluonModel.Props.C09
